@@ -14,7 +14,7 @@ if kid != '-':
     ov = km.patched_files(d)
 from sa.index import RepoIndex
 ix = RepoIndex(overlay=ov)
-cands = [p for p in ix.pyfiles() if p.endswith(rel)]
+cands = [p for p in ix.pyfiles() if p.endswith('/' + rel) or p == rel]
 m = ix.module(cands[0])
 print('# inlined:', m.inlined); print('# not inlined:', m.not_inlined); print('# renamed:', m.renamed.get(q)); print('# propagated:', m.propagated.get(q))
 for n in m.defs.get(q, []):
